@@ -21,6 +21,7 @@ type State struct {
 	heaps map[string]string  // one nested array per leaf kind
 	A     string             // allocation counter
 	regs  map[ssa.Value]Val
+	hist  *big.Int // block visits on some path to this state
 }
 
 var heapKinds = []string{"u8", "i8", "u16", "i16", "u32", "i32", "int", "u64", "bool", "ref", "flt"}
@@ -28,7 +29,7 @@ var heapKinds = []string{"u8", "i8", "u16", "i16", "u32", "i32", "int", "u64", "
 const maxLen = "281474976710656" // 2^48
 
 func (s *State) clone() *State {
-	n := &State{pc: s.pc, A: s.A, vars: make(map[*ssa.Alloc]Val, len(s.vars)), heaps: make(map[string]string, len(s.heaps)), regs: make(map[ssa.Value]Val, len(s.regs))}
+	n := &State{pc: s.pc, A: s.A, hist: s.hist, vars: make(map[*ssa.Alloc]Val, len(s.vars)), heaps: make(map[string]string, len(s.heaps)), regs: make(map[ssa.Value]Val, len(s.regs))}
 	for k, v := range s.regs {
 		n.regs[k] = v
 	}
@@ -117,7 +118,12 @@ func (e *Exec) merge(es []edge) *State {
 		s.pc = c.and(s.pc, es[0].cond)
 		return s
 	}
-	out := &State{vars: map[*ssa.Alloc]Val{}, heaps: map[string]string{}, regs: map[ssa.Value]Val{}}
+	out := &State{vars: map[*ssa.Alloc]Val{}, heaps: map[string]string{}, regs: map[ssa.Value]Val{}, hist: new(big.Int)}
+	for _, ed := range es {
+		if ed.st.hist != nil {
+			out.hist = new(big.Int).Or(out.hist, ed.st.hist)
+		}
+	}
 	for _, ed := range es {
 		for k, v := range ed.st.regs {
 			out.regs[k] = v
@@ -1019,13 +1025,16 @@ func (e *Exec) pin(t string) string {
 		return t
 	}
 	k := c.fresh("Int", "pin")
-	c.lines = append(c.lines, fmt.Sprintf("(assert (= %s %s))", k, t))
+	c.emit(fmt.Sprintf("(assert (= %s %s))", k, t), false)
 	return k
 }
 
 // copyRange copies ncells cells from (sobj,sbase) of the pre-state to (dobj,dbase): overlap-correct.
 func (e *Exec) copyRange(s *State, elemT types.Type, dobj, dbase, sobj, sbase, ncells string) {
 	c := e.c
+	if ncells == "0" {
+		return
+	}
 	dobj = e.pin(dobj)
 	sobj = e.pin(sobj)
 	dbase = e.pin(dbase)
@@ -1039,12 +1048,11 @@ func (e *Exec) copyRange(s *State, elemT types.Type, dobj, dbase, sobj, sbase, n
 		seen[l.kind] = true
 		old := s.heaps[l.kind]
 		oldp := c.fresh("HP", "Hpre"+l.kind)
-		c.lines = append(c.lines, fmt.Sprintf("(assert (= %s %s))", oldp, old))
+		c.emit(fmt.Sprintf("(assert (= %s %s))", oldp, old), true)
 		nh := c.fresh("HP", "H"+l.kind)
-		c.lines = append(c.lines,
-			fmt.Sprintf("(assert (forall ((o Int)) (! (=> (not (= o %s)) (= (select %s o) (select %s o))) :pattern ((select %s o)))))", dobj, nh, oldp, nh),
-			fmt.Sprintf("(assert (forall ((x Int)) (! (= (select (select %s %s) x) (ite (and (<= %s x) (< x (+ %s %s))) (select (select %s %s) (+ %s (- x %s))) (select (select %s %s) x))) :pattern ((select (select %s %s) x)))))",
-				nh, dobj, dbase, dbase, ncells, oldp, sobj, sbase, dbase, oldp, dobj, nh, dobj))
+		c.emit(fmt.Sprintf("(assert (forall ((o Int)) (! (=> (not (= o %s)) (= (select %s o) (select %s o))) :pattern ((select %s o)))))", dobj, nh, oldp, nh), true)
+		c.emit(fmt.Sprintf("(assert (forall ((x Int)) (! (= (select (select %s %s) x) (ite (and (<= %s x) (< x (+ %s %s))) (select (select %s %s) (+ %s (- x %s))) (select (select %s %s) x))) :pattern ((select (select %s %s) x)))))",
+			nh, dobj, dbase, dbase, ncells, oldp, sobj, sbase, dbase, oldp, dobj, nh, dobj), true)
 		s.heaps[l.kind] = nh
 	}
 }
@@ -1275,14 +1283,14 @@ func (e *Exec) havocHeaps(s *State, kinds map[string]bool, allocs bool) {
 		}
 		h0 := r.H0[k]
 		if len(r.frame) == 0 {
-			c.lines = append(c.lines, fmt.Sprintf("(assert (forall ((o Int)) (! (=> (< o %s) (= (select %s o) (select %s o))) :pattern ((select %s o)))))", r.A0, nh, h0, nh))
+			c.emit(fmt.Sprintf("(assert (forall ((o Int)) (! (=> (< o %s) (= (select %s o) (select %s o))) :pattern ((select %s o)))))", r.A0, nh, h0, nh), true)
 		} else {
 			var inf []string
 			for _, f := range r.frame {
 				inf = append(inf, fmt.Sprintf("(and (= o %s) (<= %s x) (< x %s))", f.obj, f.lo, f.hi))
 			}
-			c.lines = append(c.lines, fmt.Sprintf("(assert (forall ((o Int) (x Int)) (! (=> (and (< o %s) (not (or %s false))) (= (select (select %s o) x) (select (select %s o) x))) :pattern ((select (select %s o) x)))))",
-				r.A0, strings.Join(inf, " "), nh, h0, nh))
+			c.emit(fmt.Sprintf("(assert (forall ((o Int) (x Int)) (! (=> (and (< o %s) (not (or %s false))) (= (select (select %s o) x) (select (select %s o) x))) :pattern ((select (select %s o) x)))))",
+				r.A0, strings.Join(inf, " "), nh, h0, nh), true)
 		}
 	}
 }
